@@ -25,6 +25,10 @@ variable {α : Type} [Add α] [Sub α] [Mul α] [Div α] [Neg α] [NatCast α] [
 
 /-! ### pixel renderer -/
 
+/-- Python's `round` on the half-integer h/2: to the nearest integer, ties to the even one -/
+def roundHalfEven (h : Int) : Int :=
+  if h % 2 = 0 then h / 2 else (if ((h - 1) / 2) % 2 = 0 then (h - 1) / 2 else (h - 1) / 2 + 1)
+
 /-- the oversampled box `[N/2 − os, N/2 + os)` (rows and columns); Python slice
 semantics for `os ≤ N/2` -/
 def boxLo (N os : Nat) : Nat := N / 2 - os
